@@ -924,6 +924,9 @@ class TreeTransform(Generic[TreeFnT]):
     """Returns the output_keys (assign_keys for assign) of this transform."""
     result = set()
     for fn in self.fns:
+      if isinstance(fn, tree_fns.Sink):
+        # A sink forwards its inputs, its default SELF names no key of them.
+        continue
       non_dict_keys, dict_keys = mit.partition(_is_dict, fn.output_keys)
       # Aggregate and Assign/Apply Ops are separated into different transforms.
       # The base TreeFn means this is an Apply Op. Like Apply, Select replaces
